@@ -33,7 +33,7 @@ TECHNIQUE = ("exhaustive enumeration of all model expressions over a component a
              "evaluated alone, mapped positionally through info.composition")
 RULE = ("every ordered assignment of components to every expression shape; per program every combination of <=D "
         "dimensions off default (per part: values, dispersity, magnetism / M0=0 with angles, zero intensity, empty mesh; "
-        "per sum part: scale 0 and negative; global: 2-D, spin state, and for >=3 leaves up to three dispersed parameters in every part at once); "
+        "weak intensity (~1e-12), left-over S.radius_effective dispersity of a P@S part; per sum part: scale 0, negative and 1e-10; global: 2-D, spin state, and for >=3 leaves up to three dispersed parameters in every part at once); "
         "after the block, for every part and every reachable refusal reason: a refused call then an ordinary one on the same kernel; "
         "non-trivial = >=2 parts whose intensities alone are non-constant in q and pairwise distinct")
 ASSUMPTIONS = [
@@ -43,10 +43,11 @@ ASSUMPTIONS = [
     "scale, background = 1.7, 0.25; per-sum-part scales 0.7 + 0.45 j; 3 q points (1-D) / 3 q points (2-D)",
     "DLL and pure-Python drivers only (no OpenCL/CUDA in the image)",
 ]
-COMPONENTS_Q = ["sphere", "cylinder", "core_multi_shell", "power_law", "sphere@hardsphere"]
+# sphere@squarewell: a P@S part whose S.radius_effective is dispersible (left over when R_eff comes from P)
+COMPONENTS_Q = ["sphere", "cylinder", "core_multi_shell", "power_law", "sphere@squarewell"]
 COMPONENTS_T = ["sphere", "cylinder", "core_multi_shell", "lamellar", "guinier", "power_law", "sphere@hardsphere",
                 "hollow_cylinder@hayter_msa", "dab"]
-COMPONENTS_4Q = ["cylinder", "power_law", "sphere@hardsphere"]
+COMPONENTS_4Q = ["cylinder", "power_law", "sphere@squarewell"]
 COMPONENTS_4T = ["sphere", "cylinder", "power_law", "sphere@hardsphere"]
 SHAPES = ["{0}+{1}", "{0}*{1}", "{0}+{1}+{2}", "{0}*{1}*{2}", "{0}+{1}*{2}", "{0}*{1}+{2}"]
 # programs with a pure-Python part that HAS SLD parameters (its magnetism is refused), at every position
@@ -318,16 +319,19 @@ def run_case(case, ctx):
         oriented = bool(build.info(name).parameters.orientation_parameters)
         if pd or oriented:
             # size dispersity; for oriented parts also jitter (applied for 2-D data only, where it is defined)
-            dims.append(("pd:%d" % k, None, pd[:1] + (["theta"] if oriented else [])))
+            # ... and for a P@S part the dispersity of S.radius_effective, which is left over (ignored) while the
+            # effective radius comes from P (radius_effective_mode keeps its default 1)
+            left = ["radius_effective"] if ("@" in name and "radius_effective" in pd) else []
+            dims.append(("pd:%d" % k, None, pd[:1] + left + (["theta"] if oriented else [])))
         if slds and not is_py(name):
             dims.append(("mag:%d" % k, 0, [1, 2]))      # 2 = zero amplitude with non-zero angles: not magnetic
         if len(slds) >= 2 and any("solvent" in s_ for s_ in slds):
-            dims.append(("zero:%d" % k, 0, [1]))
+            dims.append(("zero:%d" % k, 0, [1, 2]))     # 2 = nearly contrast matched: intensity ~1e-12 of the default
         if pd:
             dims.append(("empty:%d" % k, 0, [1]))       # distribution wholly outside the limits: empty mesh
     for j, nm in enumerate(scales):
         # per-part scale of a sum (also of a nested product): switched off, and negative
-        alts = [0.0, -0.6 - 0.1 * j]
+        alts = [0.0, -0.6 - 0.1 * j, 1e-10 * (1 + j)]
         # both for two-leaf programs of the thorough tier; otherwise one of the two per part, alternating with the
         # part index and rotated by the seed (keeps the thorough tier inside its time budget)
         dims.append(("scale:" + nm, None, alts if (nleaf == 2 and not ctx.quick) else [ctx.rot(alts, j)]))
@@ -357,6 +361,7 @@ def run_case(case, ctx):
         pars.update(spin)
         own_all, magnetic_leaf, sld_leaf, zero_leaf, empty_leaf, zeroamp_leaf = [], [], [], [], [], []
         nloops = 0
+        weak_leaf, leftover_leaf, dispersed_leaf = [], [], []
         for lf in leaves:
             k, name = lf["k"], lf["leaf"]
             slds, pd = leaf_dims(name)
@@ -366,6 +371,9 @@ def run_case(case, ctx):
                     own.update({nm + "_pd": 0.08 + 0.02 * j + 0.01 * k, nm + "_pd_n": 2, nm + "_pd_type": "gaussian",
                                 nm + "_pd_nsigma": 1.5})
                 nloops += len(pd[:3])
+                dispersed_leaf.append(k)
+                if "@" in name and "radius_effective" in pd[:3]:
+                    leftover_leaf.append(k)
             if cfg.get("pd:%d" % k) == "theta":
                 if dim == "2d":
                     own.update({"theta_pd": 8.0 + 3.0 * k, "theta_pd_n": 3, "theta_pd_type": "gaussian",
@@ -373,10 +381,17 @@ def run_case(case, ctx):
                     br.append("part-jitter-2d")
             elif cfg.get("pd:%d" % k):
                 nm = cfg["pd:%d" % k]
+                (leftover_leaf if nm == "radius_effective" else dispersed_leaf).append(k)
                 own.update({nm + "_pd": 0.1 + 0.03 * k, nm + "_pd_n": 3, nm + "_pd_type": "gaussian",
                             nm + "_pd_nsigma": 2.0})
                 br.append("part-dispersity")
-            if cfg.get("zero:%d" % k):
+            if cfg.get("zero:%d" % k) == 2:
+                solvent = own[[s for s in slds if "solvent" in s][0]]
+                eps_c = 1e-6 * (1.0 + 0.5 * k)
+                for s in slds:
+                    own[s] = solvent + eps_c * (own[s] - solvent)
+                weak_leaf.append(k)
+            elif cfg.get("zero:%d" % k):
                 solvent = own[slds[-1]] if "solvent" in slds[-1] else own[[s for s in slds if "solvent" in s][0]]
                 for s in slds:
                     own[s] = solvent
@@ -431,6 +446,8 @@ def run_case(case, ctx):
             return None
         if any(v == 0.0 for v in sum_scales.values()):
             br.append("zero-sum-scale")
+        if any(0.0 < v < 1e-8 for v in sum_scales.values()):
+            br.append("tiny-sum-scale")
         if any(v < 0.0 for v in sum_scales.values()):
             br.append("negative-sum-scale")
             if any(sum_scales[nm] < 0.0 for nm in product_scales):
@@ -486,7 +503,20 @@ def run_case(case, ctx):
         nt = bool(distinct >= 2)
         both_nan = np.isnan(impl) & np.isnan(ref)
         err = np.abs(impl - ref)
-        badmask = ~(err <= 1e-11 * magn) & ~both_nan & ~(impl == ref)
+        # relative to the stated combination itself (a part may be 1e-12 of its usual size), plus the rounding of the
+        # final "+ background"
+        badmask = ~(err <= 1e-11 * (magn - abs(BACKGROUND)) + 8 * 2.0 ** -52 * magn) & ~both_nan & ~(impl == ref)
+        for k in weak_leaf:
+            if np.all(leaf_vals[k] != 0.0) and np.all(np.abs(leaf_vals[k]) <= 1e-8):
+                br.append("weak-part")
+                if has_product_with(root, lambda ch, k=k: ch["k"] == k):
+                    br.append("weak-part-in-product")
+                    if k < nleaf - 1:
+                        br.append("weak-part-in-product-before-other-factors")
+        for k in leftover_leaf:
+            br.append("leftover-reff-dispersity")
+            if any(j > k for j in dispersed_leaf):
+                br.append("leftover-reff-dispersity-before-dispersed-part")
         if not badmask.any():
             r.ok(nt=nt, outcome="%s:%s:z%d:m%d" % (dim, "nan" if both_nan.all() else "fin", len(zero_leaf),
                                                    len(magnetic_leaf)), trans=1 + nleaf, branches=br)
@@ -529,6 +559,8 @@ def run_case(case, ctx):
                dict(fk0, clause=clause), sub, nt=nt, trans=1 + nleaf, branches=br)
 
     for ndev, cfg in deviations(dims, case["D"]):
+        if cfg["dim"] == "1d" and any(cfg.get("pd:%d" % k) == "theta" for k in range(nleaf)):
+            continue        # jitter is only applied for 2-D data: in 1-D this is the identical call without it
         one(ndev, cfg)
 
     # ---- re-use of one kernel object after a refused evaluation: the refusal is raised while the mixture is
@@ -569,6 +601,11 @@ def finish(ctx, report):
     report.require("zero-part-in-product", 50, "exactly-zero part inside a product")
     report.require("magnetic-part-2d", 50, "magnetic part, 2-D")
     report.require("part-jitter-2d", 20, "orientation dispersity of an oriented part, 2-D")
+    report.require("weak-part", 200, "a part ~1e-12 of its usual intensity (nearly contrast matched)")
+    report.require("weak-part-in-product-before-other-factors", 100, "... written before other factors of a product")
+    report.require("leftover-reff-dispersity", 100, "P@S part with dispersed S.radius_effective while R_eff comes from P")
+    report.require("leftover-reff-dispersity-before-dispersed-part", 50, "... followed by a dispersed part")
+    report.require("tiny-sum-scale", 50, "per-part scale ~1e-10 in a sum")
     report.require("negative-sum-scale", 200, "negative per-part scale in a sum")
     report.require("zero-sum-scale", 200, "zero per-part scale in a sum")
     report.require("negative-scale-on-nested-product", 50, "negative scale on a product nested in a sum")
